@@ -6,6 +6,8 @@ package main
 
 import (
 	"bufio"
+	"crypto/sha256"
+	"encoding/binary"
 	"encoding/hex"
 	"fmt"
 	"os"
@@ -39,6 +41,13 @@ func (r *Rng) Intn(n int) int {
 	}
 	return int(r.Next() % uint64(n))
 }
+// SeedRng derives the PRNG state for (suite, seed) by hashing, so that different seeds give unrelated streams
+// (seed*gamma + c would make consecutive seeds the same splitmix64 stream shifted by one draw).
+func SeedRng(suite string, seed uint64) *Rng {
+	h := sha256.Sum256([]byte(fmt.Sprintf("canto-verif/%s/%d", suite, seed)))
+	return &Rng{s: binary.BigEndian.Uint64(h[:8])}
+}
+
 func (r *Rng) Chance(num, den int) bool { return r.Intn(den) < num }
 func (r *Rng) PickInt(xs ...int64) int64 { return xs[r.Intn(len(xs))] }
 func (r *Rng) PickStr(xs ...string) string { return xs[r.Intn(len(xs))] }
